@@ -193,8 +193,8 @@ class Out:
         self.out = []
 
     def _remove_last_if_S(self):
-        if self.out and not self.out[-1].strip():
-            # remove trailing S
+        if self.out and not self.out[-1].strip(' \t\r\n\f'):
+            # remove trailing S (a name made of U+00A0 or U+3000 is no S)
             del self.out[-1]
 
     def append(  # noqa: C901
